@@ -4,6 +4,7 @@ import HpxVerif.Lemmas.EllipseReal
 import HpxVerif.Props.C16
 import HpxVerif.Lemmas.EConeReal4
 import HpxVerif.Lemmas.EConeEq3
+import HpxVerif.Lemmas.Tightness3
 
 set_option autoImplicit false   -- an unknown identifier in a statement is an error, never a new variable
 
@@ -486,5 +487,54 @@ theorem coverage_shallow_no_full (cfg : Cfg) (depth : ℕ) (lon lat a b pa : ℝ
 
 
 end EquatorialUnconditional
+
+
+/-! ## tightness of the elliptical-cone coverage: every reported cell has its centre within `a + 2·Mtrue(depth)` of the centre -/
+
+section Tightness
+open Hpx Hpx.Hash Hpx.Proj Hpx.Cover Hpx.C2V Hpx.C2VReal Hpx.EnvelopeReal Hpx.EnvelopePolar Hpx.CellReal Hpx.TopoLift Hpx.CellExtent Hpx.Bmoc Hpx.Sph Hpx.EConeEq Hpx.Tightness Real
+
+/-- **`econe_tight_rec`** (ℝ, release profile).  Elliptical cone of centre `(lon, lat)`, semi-axes `0 < b ≤ a < π/2`, any
+    position angle; `dists` the list `largest_center_to_vertex_distances_with_radius(ds, target + 1, lon, lat, a)`.
+    Every cell of the output of the descent has a centre, which is within `a + 2·Mtrue depth` of the centre of the ellipse. -/
+theorem econe_tight_rec (cfg : Cfg) (lon lat a b pa : ℝ) (hb : 0 < b) (hba : b ≤ a) (ha : a < π / 2)
+    (ds target : ℕ) (hdt : ds ≤ target) (ht : target ≤ 29) (dists : List ℝ)
+    (hdists : largestC2VsWithRadius false ds (target + 1) lon lat a = some dists) (fuel root : ℕ) (out : List Cell)
+    (h : coverRec target (ellClassifier (α := ℝ) cfg target (ECone.new lon lat a b pa) dists) fuel ds root 0 = some out)
+    (c : Cell) (hc : c ∈ out) :
+    ∃ ctr, center (α := ℝ) cfg c.depth c.hash = some ctr ∧
+      adist ctr (lon, lat) ≤ a + valR c.depth lon lat a ∧ adist ctr (lon, lat) ≤ a + 2 * Mtrue c.depth :=
+  Hpx.Tightness.econe_tight_rec cfg lon lat a b pa hb hba ha ds target hdt ht dists hdists fuel root out h c hc
+
+/-- **`ellInternal_tight`** (ℝ, both profiles): every cell `c` of the list that
+    `elliptical_cone_coverage_internal(depth, lon, lat, a, b, pa)` hands to the builder (`0 < b ≤ a < π/2`) satisfies
+    * (twelve base cells + recursion, start depth `ds < depth` + recursion, small ellipse with `ds = depth`) its centre is
+      within `a + 2·Mtrue c.depth` of the centre of the ellipse; or
+    * (small ellipse, `ds = best_starting_depth(a) > depth`) `c` is the (partial) ancestor at `depth` of a cell `e` of depth
+      `ds` whose centre is within `a + 2·Mtrue ds` of the centre of the ellipse. -/
+theorem ell_internal_tight (cfg : Cfg) (depth : ℕ) (hd : depth ≤ 29) (lon lat a b pa : ℝ) (hb : 0 < b) (hba : b ≤ a)
+    (ha : a < π / 2) (cells : List Cell) (h : ellInternal (α := ℝ) cfg depth lon lat a b pa = some cells) (c : Cell)
+    (hc : c ∈ cells) :
+    (∃ ctr, center (α := ℝ) cfg c.depth c.hash = some ctr ∧ adist ctr (lon, lat) ≤ a + 2 * Mtrue c.depth) ∨
+    (∃ ds e ctr, C2V.bestStartingDepth a = some ds ∧ depth < ds ∧ c.depth = depth ∧ c.full = false ∧
+      c.hash = e >>> ((ds - depth) <<< 1) ∧ center (α := ℝ) cfg ds e = some ctr ∧
+      adist ctr (lon, lat) ≤ a + 2 * Mtrue ds) :=
+  Hpx.Tightness.ellInternal_tight cfg depth hd lon lat a b pa hb hba ha cells h c hc
+
+/-- **`elliptical_cone_coverage` (`delta_depth = 0`), on the returned BMOC** (ℝ, both profiles, `0 < b ≤ a < π/2`): every
+    entry is either a FULL cell, or a cell of the internal list, for which `ellInternal_tight` holds -/
+theorem elliptical_cone_coverage_tight (cfg : Cfg) (depth : ℕ) (lon lat a b pa : ℝ) (hb : 0 < b) (hba : b ≤ a)
+    (ha : a < π / 2) (m : BMOC) (h : ellipticalConeCoverageCustom (α := ℝ) cfg depth 0 lon lat a b pa = some m) (e : ℕ)
+    (he : e ∈ m.entries) :
+    (decode e depth).full = true ∨
+    (∃ ctr, center (α := ℝ) cfg (decode e depth).depth (decode e depth).hash = some ctr ∧
+      adist ctr (lon, lat) ≤ a + 2 * Mtrue (decode e depth).depth) ∨
+    (∃ ds e' ctr, C2V.bestStartingDepth a = some ds ∧ depth < ds ∧ (decode e depth).depth = depth ∧
+      (decode e depth).hash = e' >>> ((ds - depth) <<< 1) ∧ center (α := ℝ) cfg ds e' = some ctr ∧
+      adist ctr (lon, lat) ≤ a + 2 * Mtrue ds) :=
+  Hpx.Tightness.ellipticalConeCoverage_tight cfg depth lon lat a b pa hb hba ha m h e he
+
+
+end Tightness
 
 end Hpx.C13
